@@ -2,6 +2,7 @@ package main
 
 import (
 	"fmt"
+	"go/token"
 	"go/types"
 	"strings"
 
@@ -225,7 +226,9 @@ func (r *Run) reflectCall(st *State, fr *Frame, name string, recv Val, args []Va
 		t := typ(recv)
 		safe("Type.nilrecv", Not(Eq(t, NilOf(SAny))), "method call on a non-nil reflect.Type")
 		safe("Type.ChanDir", Eq(kindOf(t), IntLit(18)), "ChanDir on a chan Type")
-		return done(r.fromInt(uf("rt_chandir", SInt, t), sig.Results().At(0).Type()))
+		cd := uf("rt_chandir", SInt, t)
+		st.assume(And(App(SBool, "<=", IntLit(1), cd), App(SBool, "<=", cd, IntLit(3)))) // RecvDir=1, SendDir=2, BothDir=3
+		return done(r.fromInt(cd, sig.Results().At(0).Type()))
 	case "(reflect.Type).String":
 		return done(e.freshConst("str", SStr))
 	// ------------------------------------------------------------ Value methods
@@ -261,6 +264,20 @@ func (r *Run) reflectCall(st *State, fr *Frame, name string, recv Val, args []Va
 		x := e.asTerm(args[0], vs)
 		safe("Value.Set", And(uf("rv_canset", SBool, v), uf("rv_valid", SBool, x), uf("rt_assignable", SBool, uf("rv_type", SAny, x), uf("rv_type", SAny, v))), "Value.Set of a valid, assignable Value into a settable Value")
 		st.Counters["calls:rvset"] = App(SInt, "+", r.counter(st, "calls:rvset"), IntLit(1))
+		// Set changes what the receiver's storage holds. Values are immutable terms here, so the effect is
+		// modelled as a functional update of the variable / element the receiver was loaded from: it now holds a
+		// Value with the same type and settability whose Interface() is that of x (A-LIB; other copies of the
+		// same Value are not updated — the verified functions keep none).
+		if ci, ok := in.(ssa.CallInstruction); ok && len(ci.Common().Args) > 0 {
+			if ld, ok := ci.Common().Args[0].(*ssa.UnOp); ok && ld.Op == token.MUL {
+				nv := e.freshConst("rv_afterset", vs)
+				st.assume(uf("rv_valid", SBool, nv))
+				st.assume(Eq(uf("rv_type", SAny, nv), uf("rv_type", SAny, v)))
+				st.assume(Eq(uf("rv_canset", SBool, nv), uf("rv_canset", SBool, v)))
+				st.assume(Eq(uf("rv_iface", SAny, nv), uf("rv_iface", SAny, x)))
+				r.store(st, fr, r.val(st, fr, ld.X), nv, ld.Type(), in)
+			}
+		}
 		return done()
 	case "(reflect.Value).Call":
 		v := e.asTerm(recv, vs)
